@@ -183,6 +183,10 @@ func Infra(f string, a ...interface{}) {
 // Finish attributes violations against known_findings.json, writes the
 // evidence file and replay artefacts, prints the verdict lines and exits.
 func (r *Run) Finish() {
+	if out := os.Getenv("VERIF_SHARD_OUT"); out != "" {
+		r.writeShardReport(out)
+		os.Exit(0)
+	}
 	known := loadKnown(r.ID)
 	res := make([]*regexp.Regexp, len(known))
 	for i, k := range known {
